@@ -138,11 +138,6 @@ EngineAgrees(x, isJit) ==
   x.k = "skipped" \/ ~defd \/
   (isJit /\ HasLocalCall(Prog)) \/   \* recorded finding jit_r10: JIT frames alias (decided by the calls family, C07/C03)
   rundevs > 0 \/            \* the interpreter took a recorded deviation step in this run (reported as such)
-  \* the fixed-metadata VM with an EMPTY packet: the two pointer slots hold whatever address each
-  \* engine uses for an empty buffer (C09 only requires data_end - data = 0), so a program that
-  \* reads them sees engine-specific bytes; such runs are not compared across engines here (the
-  \* context probes of family ctx check the difference of the two pointers on every engine)
-  (env.c.vm = "fixed" /\ Len(env.c.pkt.bytes) = 0) \/
   (/\ x.k = "ok" /\ x.val = status.val /\ x.pkt = mem[R_PKT]
    /\ (env.c.vm = "mbuff" => x.mbuf = mem[R_MBUF]))
 
